@@ -20,7 +20,7 @@ from ..core import pool_map
 MODULE = "chan/MuChannel.tla"
 DEVS = ["NewChannelKeepsCache", "ExtIntSetPathlossKeepsCache", "SetPostFilterKeepsBigW",
         "PlBigNotRebuiltOnResize", "HNoExtViaOverride"]
-READERS = ["ReadH", "ReadBigH", "GetHkl", "GetHk", "BigHNoExt", "HNoExt", "GetHkNoExt"]
+READERS = ["ReadH", "ReadBigH", "GetHkl", "GetHk", "BigHNoExt", "HNoExt", "GetHkNoExt", "GetHkWithExt"]
 TOL = 1e-9
 
 SPLITS = {
@@ -33,7 +33,7 @@ SPLITS = {
     "plainK3": [dict(nr=[1, 2], nt=[2, 1], nte=[]), dict(nr=[2, 1, 1], nt=[1, 1, 2], nte=[]), dict(nr=[1, 1, 2], nt=[2, 1, 1], nte=[])],
     "extK3": [dict(nr=[1, 2], nt=[2, 1], nte=[1]), dict(nr=[2, 1, 1], nt=[1, 1, 2], nte=[1]), dict(nr=[1, 1, 2], nt=[2, 1, 1], nte=[2])],
 }
-ACTS_A = {"Randomize", "InitFrom", "SetPathloss", "ReadH", "ReadBigH", "GetHkl", "GetHk", "BigHNoExt", "HNoExt", "GetHkNoExt", "Rejected"}
+ACTS_A = {"Randomize", "InitFrom", "SetPathloss", "ReadH", "ReadBigH", "GetHkl", "GetHk", "BigHNoExt", "HNoExt", "GetHkNoExt", "GetHkWithExt", "Rejected"}
 ACTS_B = {"Randomize", "SetPathloss", "SetNoiseVar", "SetPostFilter", "ReadBigH", "Corrupt", "Rejected"}
 
 
@@ -100,6 +100,15 @@ class Driver:
             self.by.init_from_channel_matrix(give, np.array(nr), np.array(nt), K)
         self.by_views = (np.array(self.by.big_H), [[np.array(self.by.get_Hkl(k, l)) for l in range(K)] for k in range(K)])
 
+    @staticmethod
+    def _split(y, nr):
+        """the documented relation corrupt_data(blocks) = split(corrupt_concatenated_data(vstack(blocks))) by Nr"""
+        cr = np.cumsum([0] + list(nr))
+        out = np.empty(len(nr), dtype=object)
+        for k in range(len(nr)):
+            out[k] = y[cr[k]:cr[k + 1], :]
+        return out
+
     def alias_probe(self):
         """the caller writes into the path-loss array it passed earlier: either the write is refused (read-only), or
         the object keeps reporting ONE path loss coherently (all views agree with `pathloss`); the write is undone"""
@@ -152,18 +161,24 @@ class Driver:
         if op in ("Randomize", "InitFrom"):
             nr, nt, nte = self.dims(a[0])
             K = len(nr)
+            # equal antenna counts may be given as one int (documented); every other time they are
+            as_int = self.rng.randint(0, 2) == 0
+            anr = int(nr[0]) if (as_int and len(set(nr)) == 1) else np.array(nr)
+            ant = int(nt[0]) if (as_int and len(set(nt)) == 1) else np.array(nt)
+            ante = int(nte[0]) if (as_int and len(nte) == 1) else np.array(nte)
             if op == "Randomize":
                 if self.ext:
-                    o.randomize(np.array(nr), np.array(nt), K, np.array(nte))
+                    o.randomize(anr, ant, K, ante)
                 else:
-                    o.randomize(np.array(nr), np.array(nt), K)
+                    o.randomize(anr, ant, K)
                 self.raw = self.raw_of(o)
             else:
                 m = _gint(self.rng, sum(nr), sum(nt) + sum(nte))
                 if self.ext:
-                    o.init_from_channel_matrix(m.copy(), np.array(nr), np.array(nt), K, np.array(nte))
+                    # (the ExtInt class documents arrays for Nr / Nt here; a single source may be given as an int)
+                    o.init_from_channel_matrix(m.copy(), np.array(nr), np.array(nt), K, ante)
                 else:
-                    o.init_from_channel_matrix(m.copy(), np.array(nr), np.array(nt), K)
+                    o.init_from_channel_matrix(m.copy(), anr, ant, K)
                 self.raw = m
             self.pending = self.bystander_changed()      # the old bystander must have survived this call untouched
             self._new_bystander(nr, nt, nte, K)
@@ -214,7 +229,13 @@ class Driver:
                 self.filters = [_gint(r, n, n) + np.eye(n) * 5 for n in nr]
                 # filters of different element types in one list: the first one is real valued (float64)
                 self.filters[0] = np.real(self.filters[0]).astype(float) + np.eye(nr[0])
-                o.set_post_filter(list(self.filters))
+                if self.rng.randint(0, 2):
+                    o.set_post_filter(list(self.filters))
+                else:                                    # the documented alternative: a 1-D array of 2-D arrays
+                    fa = np.empty(len(self.filters), dtype=object)
+                    for k, f in enumerate(self.filters):
+                        fa[k] = f
+                    o.set_post_filter(fa)
             return None
         if op == "ReadH":
             return ("H", o.H)
@@ -230,6 +251,8 @@ class Driver:
             return ("H_no_ext", o.H_no_ext_int)
         if op == "GetHkNoExt":
             return (("Hk_no_ext", a[0] - 1), o.get_Hk_without_ext_int(a[0] - 1))
+        if op == "GetHkWithExt":
+            return (("Hk", a[0] - 1), o.get_Hk_with_ext_int(a[0] - 1))
         if op == "Corrupt":
             nr, nt, nte = self.dims(e["post"]["split"])
             r = np.random.RandomState(2000 + a[0])
@@ -244,10 +267,22 @@ class Driver:
                 ed = np.zeros(len(nte), dtype=object)
                 for k, n in enumerate(nte):
                     ed[k] = _gint(r, n, 3)
-                out = o.corrupt_data(data, ed)
+                form = self.rng.randint(0, 3)          # arrays of arrays | plain lists | the concatenated entry point
+                if form == 0:
+                    out = o.corrupt_data(data, ed)
+                elif form == 1:
+                    out = o.corrupt_data(list(data), list(ed))
+                else:
+                    out = self._split(o.corrupt_concatenated_data(np.vstack(list(data) + list(ed))), nr)
                 x = np.vstack(list(data) + list(ed))
             else:
-                out = o.corrupt_data(data)
+                form = self.rng.randint(0, 3)
+                if form == 0:
+                    out = o.corrupt_data(data)
+                elif form == 1:
+                    out = o.corrupt_data(list(data))
+                else:
+                    out = self._split(o.corrupt_concatenated_data(np.vstack(list(data))), nr)
                 x = np.vstack(list(data))
             if any(not np.array_equal(b, d) for b, d in zip(before, data)):
                 return ("error", "corrupt_data changed the caller's transmit data")
@@ -310,6 +345,7 @@ def probe_all(obj, ev, K, ncb, ext):
             reads.append((("Hkl", k, l), lambda c, k=k, l=l: c.get_Hkl(k, l)))
         if ext:
             reads.append((("Hk_no_ext", k), lambda c, k=k: c.get_Hk_without_ext_int(k)))
+            reads.append((("Hk", k), lambda c, k=k: c.get_Hk_with_ext_int(k)))
     if ext:
         reads += [("big_H_no_ext", lambda c: c.big_H_no_ext_int), ("H_no_ext", lambda c: c.H_no_ext_int)]
     c = copy.deepcopy(obj)
@@ -347,6 +383,10 @@ def run_path(job):
         except Exception as ex:
             viol.append({"step": i, "op": e["ret"], "what": f"{e['ret']['op']} raised {type(ex).__name__}: {ex}"})
             break
+        if not post["inited"]:
+            # a setter called before any channel exists: nothing to read yet (the views are judged after the first channel)
+            okc += 1
+            continue
         amp = amps[f"{post['pl']},{post['split']}"]
         ev = expected_views(drv.raw, amp, nr, nt, nte, ext)
         if got is not None:
@@ -392,6 +432,19 @@ def run_path(job):
         drv.pending = None
         if bc:
             viol.append({"step": i, "op": e["ret"], "what": bc})
+        try:
+            cw = copy.deepcopy(drv.obj)
+            bw, w = cw.big_W, cw.W
+            if drv.filters is None:
+                if bw is not None or w is not None:
+                    viol.append({"step": i, "op": e["ret"], "what": "W / big_W report filters although none are set"})
+            else:
+                from scipy.linalg import block_diag
+                if bw is None or not _close(bw, block_diag(*drv.filters)) or len(w) != len(drv.filters) \
+                        or any(not _close(a_, b_) for a_, b_ in zip(w, drv.filters)):
+                    viol.append({"step": i, "op": e["ret"], "what": "W / big_W are not the filters set last (block diagonal of the current filters)"})
+        except Exception as ex:                         # noqa
+            viol.append({"step": i, "op": e["ret"], "what": f"reading W / big_W raised {type(ex).__name__}: {ex}"})
         for kind, d in probe_all(drv.obj, ev, K, ncb, ext):
             viol.append({"step": i, "op": e["ret"], "what": f"after step: view {kind}: {d}"})
         if viol:
@@ -476,7 +529,7 @@ def run(ctx):
         sp = SPLITS[c[2]][:(3 if thorough or "coherence" in c[0] else 2)]
         n += explore(ctx, c[0], c[1], sp, r, mode)
     ctx.require_actions(["NewChannel", "SetPathloss", "SetNoiseVar", "SetPostFilter", "Rejected", "Reader", "GetHkl", "GetHk",
-                         "BigHNoExt", "HNoExt", "GetHkNoExt", "Corrupt"])
+                         "BigHNoExt", "HNoExt", "GetHkNoExt", "GetHkWithExt", "Corrupt"])
     ctx.exhaustive = True
     ctx.notes["paths_replayed"] = n
     from . import c08_trace
